@@ -271,6 +271,7 @@ var alphabet = []Item{
 	{ID: "n-b", Lines: []string{"+b.example.com,192.0.2.86,300,,"}, Recs: []Rec{rA("b.example.com", "192.0.2.86", 300, "")}, Why: "byte-order neighbour; also the empty non-terminal of a-b"},
 	{ID: "n-a-aa", Lines: []string{"+a.example.com,192.0.2.87,300,,aa"}, Recs: []Rec{rA("a.example.com", "192.0.2.87", 300, "aa")}, Why: "same name, location aa"},
 	{ID: "n-a-bb", Lines: []string{"+a.example.com,192.0.2.88,300,,bb"}, Recs: []Rec{rA("a.example.com", "192.0.2.88", 300, "bb")}, Why: "same name, location bb"},
+	{ID: "mixed-case", Aux: true, Lines: []string{"+MiXed.Example.COM,192.0.2.90,300,,"}, Recs: []Rec{rA("mixed.example.com", "192.0.2.90", 300, "")}, Why: "owner written in mixed case: names are case-insensitive"},
 	{ID: "map-w", Lines: []string{"M*.w.example.com,m2", "%bb,10.0.0.0/8,m2"},
 		Maps: []MapDecl{{fq("w.example.com"), true, "m2"}}, Nets: []NetDecl{{"bb", cidr("10.0.0.0/8"), "m2"}}, Why: "a closer wildcard map that re-locates the same client under w"},
 	{ID: "zone-loc-aa", Lines: []string{
